@@ -331,7 +331,7 @@ Inductive fval :=
 | FNull
 | FStr (s : str) (vid : N)
 | FRef (name : str) (strform : str) (vid : N)
-| FDict (d : list (str * fval))
+| FDict (d : list (str * fval)) (vid : N)
 | FOther (vid : N).
 Definition frow := list (str * fval).
 Definition ID : str := [105; 100].
@@ -372,7 +372,7 @@ Fixpoint get_path (rows : list frow) (obj : fobj) (p : path) : option fval :=
   | name :: p' =>
       let item := match obj with
                   | ORow r => assoc name r
-                  | OVal (FDict d) => assoc name d
+                  | OVal (FDict d _) => assoc name d
                   | OVal _ => None              (* TypeError / KeyError / IndexError -> NOT_FOUND *)
                   end in
       match item with
@@ -483,7 +483,7 @@ Fixpoint dec_fval (fuel : nat) (e : sexp) : option fval :=
       | SList [h; SStr s; SInt i] => if is_sym "str" h then Some (FStr s (Z.to_N i)) else None
       | SList [h; SStr n; SStr sf; SInt i] => if is_sym "ref" h then Some (FRef n sf (Z.to_N i)) else None
       | SList [h; SInt i] => if is_sym "other" h then Some (FOther (Z.to_N i)) else None
-      | SList [h; SList items] =>
+      | SList [h; SList items; SInt i] =>
           if is_sym "dict" h then
             match (fix go (l : list sexp) : option (list (str * fval)) :=
                      match l with
@@ -494,7 +494,7 @@ Fixpoint dec_fval (fuel : nat) (e : sexp) : option fval :=
                                                   end
                      | _ => None
                      end) items with
-            | Some d => Some (FDict d)
+            | Some d => Some (FDict d (Z.to_N i))
             | None => None
             end
           else None
@@ -518,7 +518,7 @@ Definition dec_frow (e : sexp) : option frow :=
   end.
 
 Definition vid_of (v : fval) : option N :=
-  match v with FStr _ i | FRef _ _ i | FOther i => Some i | _ => None end.
+  match v with FStr _ i | FRef _ _ i | FOther i | FDict _ i => Some i | FNull => None end.
 
 (* (frun text limit (row ...) ((vid const-index outcome-bits) ...)):
    the indices of the selected rows; the oracle table gives, for a value id and a literal position,
